@@ -183,7 +183,25 @@ func NewStack(kind string, capacity int) stackage.Stack {
 			c = []int{[]int{-7, -65536, math.MinInt, math.MinInt + 1}[capSpellN%4]}
 		}
 	}
+	var kept stackage.Stack
+	if PastSpell == 4 {
+		// just before, some other variable holding some other stack was released while a copy of the handle is kept
+		t := stackage.Basic(3).Push("kept-1").SetID("kept")
+		kept = t
+		t.Free()
+	}
 	s := NewStackArgs(kind, c...)
+	if PastSpell == 4 {
+		// ... and the kept handle goes on being used: it is an instance of its own, whatever was constructed since
+		kept.SetFIFO(true)
+		kept.SetNegativeIndices(true)
+		kept.SetNoPadding(true)
+		kept.Push("kept-2")
+		v0, _ := kept.Index(0)
+		if kept.Len() != 2 || v0 != "kept-1" || kept.ID() != "kept" || kept.Cap() != 3 || kept.Kind() != "BASIC" {
+			panic(fmt.Sprintf("freed-sibling: a handle kept from before Free was called on another variable holding the same stack reads Len=%d Index(0)=%v ID=%q Cap=%d Kind=%s after a new stack was constructed", kept.Len(), v0, kept.ID(), kept.Cap(), kept.Kind()))
+		}
+	}
 	switch PastSpell {
 	case 1:
 		// an instance with a past: it has held values before, and was emptied again (Reset keeps everything but content)
